@@ -369,3 +369,853 @@ Proof.
   destruct (dhcpw_parse_opts_spec bs ltac:(lia) l dhcpw_acc0 Fl dhcpw_acc0_wf) as (Np & _).
   cbn [obind]. nopanic.
 Qed.
+
+(* ====================================================================================== *)
+(* C06: DhcpOptionWriter                                                                  *)
+(* ====================================================================================== *)
+
+(* the octets of one option / of a list of options *)
+Definition dhcpw_opt_bytes (o : dhcpw_opt) : list Z :=
+  dhcpw_o_kind o :: blen (dhcpw_o_data o) :: dhcpw_o_data o.
+Definition dhcpw_opts_bytes (l : list dhcpw_opt) : list Z := flat_map dhcpw_opt_bytes l.
+
+Lemma dhcpw_opts_bytes_app a b : dhcpw_opts_bytes (a ++ b) = dhcpw_opts_bytes a ++ dhcpw_opts_bytes b.
+Proof. apply flat_map_app. Qed.
+
+Lemma dhcpw_opt_bytes_len o : blen (dhcpw_opt_bytes o) = 2 + blen (dhcpw_o_data o).
+Proof. unfold dhcpw_opt_bytes. autorewrite with blen. lia. Qed.
+
+Lemma dhcpw_ow_emit_ok done buffer o :
+  blen (dhcpw_o_data o) <= 255 -> 2 + blen (dhcpw_o_data o) <= blen buffer ->
+  dhcpw_ow_emit (done, buffer) o =
+    Ok (done ++ dhcpw_opt_bytes o, skipn (Z.to_nat (2 + blen (dhcpw_o_data o))) buffer).
+Proof.
+  intros H1 H2. destruct o as [k d]; unfold dhcpw_opt_bytes; cbn [dhcpw_o_kind dhcpw_o_data] in *.
+  pose proof (blen_nonneg d) as Hd.
+  unfold dhcpw_ow_emit; cbn [dhcpw_o_kind dhcpw_o_data]. zbool.
+  destruct (split_hdr buffer (2 + blen d) ltac:(lia)) as (h & t & -> & Hh & Ht).
+  assert (Lh : blen h = 2 + blen d) by (unfold blen in *; lia).
+  rewrite wb_upto_app_l by lia. rewrite wb_upto_all' by lia. rewrite wb_from_tail by lia. cbn [obind].
+  destruct h as [|c0 [|c1 h']]; autorewrite with blen in Lh; try lia.
+  unfold wb_set_u8 at 1. rewrite !blen_cons. zbool. zfold. cbn [firstn skipn app obind].
+  unfold wb_set_u8 at 1. rewrite !blen_cons. zbool. zfold. cbn [firstn skipn app obind].
+  change (k :: blen d mod 256 :: h') with ([k; blen d mod 256] ++ h').
+  rewrite (wb_set_slice_tail [k; blen d mod 256] h' 2 _ d) by (autorewrite with blen; lia).
+  cbn [obind app]. rewrite Z.mod_small by lia.
+  change (c0 :: c1 :: h' ++ t) with ((c0 :: c1 :: h') ++ t). rewrite <- Hh.
+  rewrite skipn_app, skipn_all, Nat.sub_diag. reflexivity.
+Qed.
+
+Lemma dhcpw_skipn_skipn {A} : forall y x (l : list A), skipn x (skipn y l) = skipn (y + x) l.
+Proof.
+  induction y as [|y IH]; intros x l; [reflexivity|].
+  destruct l; cbn [skipn Nat.add]; [apply skipn_nil | apply IH].
+Qed.
+
+Lemma dhcpw_ow_emit_all_ok : forall l done buffer,
+  Forall (fun o => blen (dhcpw_o_data o) <= 255) l -> blen (dhcpw_opts_bytes l) <= blen buffer ->
+  dhcpw_ow_emit_all (done, buffer) l =
+    Ok (done ++ dhcpw_opts_bytes l, skipn (Z.to_nat (blen (dhcpw_opts_bytes l))) buffer).
+Proof.
+  induction l as [|o l IH]; intros done buffer Hf Hl.
+  - cbn. rewrite app_nil_r. reflexivity.
+  - inversion Hf as [|? ? Ho Hf']; subst.
+    change (dhcpw_opts_bytes (o :: l)) with (dhcpw_opt_bytes o ++ dhcpw_opts_bytes l) in *.
+    rewrite blen_app, dhcpw_opt_bytes_len in *.
+    pose proof (blen_nonneg (dhcpw_opts_bytes l)). pose proof (blen_nonneg (dhcpw_o_data o)).
+    cbn [dhcpw_ow_emit_all]. rewrite dhcpw_ow_emit_ok by lia. cbn [obind].
+    rewrite IH; [| assumption | rewrite blen_skipn by lia; lia].
+    rewrite <- app_assoc, dhcpw_skipn_skipn. do 3 f_equal. lia.
+Qed.
+
+Lemma dhcpw_ow_end_ok done x : dhcpw_ow_end (done, [x]) = Ok (done ++ [wdhcp_OPT_END], []).
+Proof. reflexivity. Qed.
+
+(* ====================================================================================== *)
+(* C06: the options Repr::emit writes                                                      *)
+(* ====================================================================================== *)
+
+Definition dhcpw_seg {A} (f : A -> dhcpw_opt) (o : option A) : list dhcpw_opt :=
+  match o with Some v => [f v] | None => [] end.
+
+(* the options in emit order *)
+Definition dhcpw_opts_of (r : dhcpw_repr) : list dhcpw_opt :=
+  mkDhcpwOpt wdhcp_OPT_DHCP_MESSAGE_TYPE [dhcpw_r_message_type r] ::
+  dhcpw_seg (fun v => mkDhcpwOpt wdhcp_OPT_CLIENT_ID (dhcpw_HW_ETHERNET :: v)) (dhcpw_r_client_identifier r) ++
+  dhcpw_seg (mkDhcpwOpt wdhcp_OPT_SERVER_IDENTIFIER) (dhcpw_r_server_identifier r) ++
+  dhcpw_seg (mkDhcpwOpt wdhcp_OPT_ROUTER) (dhcpw_r_router r) ++
+  dhcpw_seg (mkDhcpwOpt wdhcp_OPT_SUBNET_MASK) (dhcpw_r_subnet_mask r) ++
+  dhcpw_seg (mkDhcpwOpt wdhcp_OPT_REQUESTED_IP) (dhcpw_r_requested_ip r) ++
+  dhcpw_seg (fun v => mkDhcpwOpt wdhcp_OPT_MAX_DHCP_MESSAGE_SIZE (be_enc2 v)) (dhcpw_r_max_size r) ++
+  dhcpw_seg (fun v => mkDhcpwOpt wdhcp_OPT_IP_LEASE_TIME (be_enc4 v)) (dhcpw_r_lease_duration r) ++
+  dhcpw_seg (fun v => mkDhcpwOpt wdhcp_OPT_RENEWAL_TIME_VALUE (be_enc4 v)) (dhcpw_r_renew_duration r) ++
+  dhcpw_seg (fun v => mkDhcpwOpt wdhcp_OPT_REBINDING_TIME_VALUE (be_enc4 v)) (dhcpw_r_rebind_duration r) ++
+  dhcpw_seg (mkDhcpwOpt wdhcp_OPT_PARAMETER_REQUEST_LIST) (dhcpw_r_parameter_request_list r) ++
+  dhcpw_seg (fun ips => mkDhcpwOpt wdhcp_OPT_DOMAIN_NAME_SERVER (concat ips)) (dhcpw_r_dns_servers r) ++
+  dhcpw_r_additional_options r.
+
+Lemma dhcpw_ow_emit_all_seg {A} (f : A -> dhcpw_opt) o w l :
+  dhcpw_ow_emit_all w (dhcpw_seg f o ++ l) =
+  do w <- dhcpw_ow_emit_opt w (option_map f o); dhcpw_ow_emit_all w l.
+Proof. destruct o; reflexivity. Qed.
+
+(* the DNS server array of emit *)
+Lemma dhcpw_dns_data_ok ips : dhcpw_dns_ok ips = true -> dhcpw_dns_data ips = Ok (concat ips).
+Proof.
+  unfold dhcpw_dns_ok. zfold. intros H. apply andb_prop in H. destruct H as [Hn Hf]. bsplit.
+  destruct ips as [|a [|b [|c [|d ips]]]]; cbn [length] in Hn; try lia; cbn [forallb] in Hf; bsplit;
+    repeat match goal with H : blen _ = 4 |- _ => apply (blen_length _ 4) in H; cells H end;
+    vm_compute; reflexivity.
+Qed.
+
+(* Repr::emit's option block is the writer run over [dhcpw_opts_of] *)
+Lemma dhcpw_emit_options_eq r s :
+  dhcpw_opt_all dhcpw_dns_ok (dhcpw_r_dns_servers r) = true ->
+  dhcpw_emit_options r s =
+  do w <- dhcpw_ow_emit_all ([], s) (dhcpw_opts_of r); do w <- dhcpw_ow_end w; Ok (fst w ++ snd w).
+Proof.
+  intros Hdns. unfold dhcpw_emit_options, dhcpw_opts_of. cbn [dhcpw_ow_emit_all].
+  rewrite obind_assoc.
+  destruct (dhcpw_ow_emit ([], s) _) as [w| |]; cbn [obind]; try reflexivity.
+  do 10 (rewrite dhcpw_ow_emit_all_seg, obind_assoc;
+         match goal with |- obind ?x _ = _ => destruct x as [?w| |]; cbn [obind]; try reflexivity end).
+  destruct (dhcpw_r_dns_servers r) as [ips|]; cbn [dhcpw_seg app dhcpw_opt_all] in *.
+  - rewrite (dhcpw_dns_data_ok ips Hdns). cbn [obind dhcpw_ow_emit_all]. rewrite obind_assoc. reflexivity.
+  - reflexivity.
+Qed.
+
+(* ---------- the proviso, clause by clause ---------- *)
+
+Lemma dhcpw_wf_emit_inv r : dhcpw_wf_emit r = true ->
+  is_u8 (dhcpw_r_message_type r) = true /\ is_u32 (dhcpw_r_transaction_id r) = true /\
+  is_u16 (dhcpw_r_secs r) = true /\ is_arr 6 (dhcpw_r_client_hardware_address r) = true /\
+  is_arr 4 (dhcpw_r_client_ip r) = true /\ is_arr 4 (dhcpw_r_your_ip r) = true /\
+  is_arr 4 (dhcpw_r_server_ip r) = true /\ is_arr 4 (dhcpw_r_relay_agent_ip r) = true /\
+  dhcpw_opt_all (is_arr 4) (dhcpw_r_router r) = true /\
+  dhcpw_opt_all (is_arr 4) (dhcpw_r_subnet_mask r) = true /\
+  dhcpw_opt_all (is_arr 4) (dhcpw_r_requested_ip r) = true /\
+  dhcpw_opt_all (is_arr 6) (dhcpw_r_client_identifier r) = true /\
+  dhcpw_opt_all (is_arr 4) (dhcpw_r_server_identifier r) = true /\
+  dhcpw_opt_all dhcpw_prl_ok (dhcpw_r_parameter_request_list r) = true /\
+  dhcpw_opt_all dhcpw_dns_ok (dhcpw_r_dns_servers r) = true /\
+  dhcpw_opt_all is_u16 (dhcpw_r_max_size r) = true /\
+  dhcpw_opt_all is_u32 (dhcpw_r_lease_duration r) = true /\
+  dhcpw_opt_all is_u32 (dhcpw_r_renew_duration r) = true /\
+  dhcpw_opt_all is_u32 (dhcpw_r_rebind_duration r) = true /\
+  forallb dhcpw_opt_ok (dhcpw_r_additional_options r) = true.
+Proof.
+  unfold dhcpw_wf_emit. intros H. do 19 (apply andb_prop in H; destruct H as [H ?]).
+  repeat split; assumption.
+Qed.
+
+Lemma dhcpw_Forall_app {A} (P : A -> Prop) a b : Forall P a -> Forall P b -> Forall P (a ++ b).
+Proof. intros. apply Forall_app. split; assumption. Qed.
+
+Lemma dhcpw_seg_forall {A} (P : dhcpw_opt -> Prop) (f : A -> dhcpw_opt) (p : A -> bool) o :
+  dhcpw_opt_all p o = true -> (forall v, p v = true -> P (f v)) -> Forall P (dhcpw_seg f o).
+Proof. destruct o; cbn; intros H Hp; constructor; auto. Qed.
+
+Lemma dhcpw_seg_len {A} (f : A -> dhcpw_opt) (p : A -> bool) o n :
+  dhcpw_opt_all p o = true -> (forall v, p v = true -> 2 + blen (dhcpw_o_data (f v)) = n) ->
+  blen (dhcpw_opts_bytes (dhcpw_seg f o)) = dhcpw_if_some o n.
+Proof.
+  destruct o as [v|]; cbn [dhcpw_seg dhcpw_opt_all dhcpw_if_some]; intros H Hp; [|reflexivity].
+  cbn [dhcpw_opts_bytes flat_map]. rewrite app_nil_r, dhcpw_opt_bytes_len. auto.
+Qed.
+
+Lemma dhcpw_concat4_len ips : forallb (is_arr 4) ips = true -> blen (concat ips) = Z.of_nat (length ips) * 4.
+Proof.
+  induction ips as [|a t IH]; cbn [forallb concat length]; intros H; [reflexivity|].
+  apply andb_prop in H. destruct H as [Ha Ht]. unfold is_arr in Ha. bsplit.
+  rewrite blen_app, IH by assumption. lia.
+Qed.
+
+Lemma dhcpw_concat4_bytes ips : forallb (is_arr 4) ips = true -> bytes_ok (concat ips) = true.
+Proof.
+  induction ips as [|a t IH]; cbn [forallb concat]; intros H; [reflexivity|].
+  apply andb_prop in H. destruct H as [Ha Ht]. unfold is_arr in Ha. apply andb_prop in Ha. destruct Ha as [_ Ha].
+  rewrite bytes_ok_app, Ha, IH by assumption. reflexivity.
+Qed.
+
+Lemma dhcpw_opts_len_eq : forall l acc,
+  fold_left (fun len o => len + (2 + blen (dhcpw_o_data o))) l acc = acc + blen (dhcpw_opts_bytes l).
+Proof.
+  induction l as [|o l IH]; intros acc; cbn [fold_left].
+  - change (dhcpw_opts_bytes []) with (@nil Z). rewrite blen_nil. lia.
+  - rewrite IH. change (dhcpw_opts_bytes (o :: l)) with (dhcpw_opt_bytes o ++ dhcpw_opts_bytes l).
+    rewrite blen_app, dhcpw_opt_bytes_len. lia.
+Qed.
+
+(* what the emitted options satisfy: octet kinds other than PAD/END, <= 255 data octets *)
+Ltac dhcpw_good :=
+  unfold dhcpw_opt_good, dhcpw_opt_ok; cbn [dhcpw_o_kind dhcpw_o_data]; zfold;
+  split; [| split; discriminate].
+
+Lemma dhcpw_opts_of_good r : dhcpw_wf_emit r = true ->
+  Forall dhcpw_opt_good (dhcpw_r_additional_options r) -> Forall dhcpw_opt_good (dhcpw_opts_of r).
+Proof.
+  intros Hwf Hadd. destruct (dhcpw_wf_emit_inv r Hwf) as
+    (Hmt & _ & _ & _ & _ & _ & _ & _ & Hrt & Hsm & Hrip & Hcid & Hsid & Hprl & Hdns & Hms & Hld & Hrn & Hrb & _).
+  unfold dhcpw_opts_of. constructor.
+  { dhcpw_good. cbn [bytes_ok forallb]. rewrite Hmt. reflexivity. }
+  repeat apply dhcpw_Forall_app; try assumption.
+  - eapply dhcpw_seg_forall; [exact Hcid|]. intros v Hv. dhcpw_good.
+    unfold is_arr in Hv. apply andb_prop in Hv. destruct Hv as [Hl Hb]. bsplit.
+    rewrite bytes_ok_cons, Hb, blen_cons. zbool. reflexivity.
+  - eapply dhcpw_seg_forall; [exact Hsid|]. intros v Hv. dhcpw_good.
+    unfold is_arr in Hv. apply andb_prop in Hv. destruct Hv as [Hl Hb]. bsplit. rewrite Hb. zbool. reflexivity.
+  - eapply dhcpw_seg_forall; [exact Hrt|]. intros v Hv. dhcpw_good.
+    unfold is_arr in Hv. apply andb_prop in Hv. destruct Hv as [Hl Hb]. bsplit. rewrite Hb. zbool. reflexivity.
+  - eapply dhcpw_seg_forall; [exact Hsm|]. intros v Hv. dhcpw_good.
+    unfold is_arr in Hv. apply andb_prop in Hv. destruct Hv as [Hl Hb]. bsplit. rewrite Hb. zbool. reflexivity.
+  - eapply dhcpw_seg_forall; [exact Hrip|]. intros v Hv. dhcpw_good.
+    unfold is_arr in Hv. apply andb_prop in Hv. destruct Hv as [Hl Hb]. bsplit. rewrite Hb. zbool. reflexivity.
+  - eapply dhcpw_seg_forall; [exact Hms|]. intros v Hv. dhcpw_good. rewrite be_enc2_bytes. reflexivity.
+  - eapply dhcpw_seg_forall; [exact Hld|]. intros v Hv. dhcpw_good. rewrite be_enc4_bytes. reflexivity.
+  - eapply dhcpw_seg_forall; [exact Hrn|]. intros v Hv. dhcpw_good. rewrite be_enc4_bytes. reflexivity.
+  - eapply dhcpw_seg_forall; [exact Hrb|]. intros v Hv. dhcpw_good. rewrite be_enc4_bytes. reflexivity.
+  - eapply dhcpw_seg_forall; [exact Hprl|]. intros v Hv. dhcpw_good.
+    unfold dhcpw_prl_ok in Hv. apply andb_prop in Hv. destruct Hv as [Hb Hl]. rewrite Hb, Hl. reflexivity.
+  - eapply dhcpw_seg_forall; [exact Hdns|]. intros v Hv. dhcpw_good.
+    unfold dhcpw_dns_ok in Hv. zfold_in Hv. apply andb_prop in Hv. destruct Hv as [Hn Hf]. bsplit.
+    rewrite dhcpw_concat4_bytes, dhcpw_concat4_len by assumption. zbool. reflexivity.
+Qed.
+
+Lemma dhcpw_opt_ok_len o : dhcpw_opt_ok o = true -> blen (dhcpw_o_data o) <= 255.
+Proof. unfold dhcpw_opt_ok. intros H. bsplit. assumption. Qed.
+
+(* without the PAD/END restriction on additional options: all data fit one length octet *)
+Lemma dhcpw_opts_of_short r : dhcpw_wf_emit r = true ->
+  Forall (fun o => blen (dhcpw_o_data o) <= 255) (dhcpw_opts_of r).
+Proof.
+  intros Hwf.
+  set (r0 := mkDhcpw (dhcpw_r_message_type r) (dhcpw_r_transaction_id r) (dhcpw_r_secs r)
+    (dhcpw_r_client_hardware_address r) (dhcpw_r_client_ip r) (dhcpw_r_your_ip r) (dhcpw_r_server_ip r)
+    (dhcpw_r_router r) (dhcpw_r_subnet_mask r) (dhcpw_r_relay_agent_ip r) (dhcpw_r_broadcast r)
+    (dhcpw_r_requested_ip r) (dhcpw_r_client_identifier r) (dhcpw_r_server_identifier r)
+    (dhcpw_r_parameter_request_list r) (dhcpw_r_dns_servers r) (dhcpw_r_max_size r)
+    (dhcpw_r_lease_duration r) (dhcpw_r_renew_duration r) (dhcpw_r_rebind_duration r) []).
+  assert (Hwf0 : dhcpw_wf_emit r0 = true).
+  { revert Hwf. unfold dhcpw_wf_emit, r0. cbn [dhcpw_r_message_type dhcpw_r_transaction_id dhcpw_r_secs
+      dhcpw_r_client_hardware_address dhcpw_r_client_ip dhcpw_r_your_ip dhcpw_r_server_ip dhcpw_r_router
+      dhcpw_r_subnet_mask dhcpw_r_relay_agent_ip dhcpw_r_broadcast dhcpw_r_requested_ip
+      dhcpw_r_client_identifier dhcpw_r_server_identifier dhcpw_r_parameter_request_list dhcpw_r_dns_servers
+      dhcpw_r_max_size dhcpw_r_lease_duration dhcpw_r_renew_duration dhcpw_r_rebind_duration
+      dhcpw_r_additional_options forallb]. intros H. apply andb_prop in H. destruct H as [H _].
+    rewrite H. reflexivity. }
+  pose proof (dhcpw_opts_of_good r0 Hwf0 (Forall_nil _)) as G.
+  assert (E : dhcpw_opts_of r = dhcpw_opts_of r0 ++ dhcpw_r_additional_options r).
+  { unfold dhcpw_opts_of, r0. cbn [dhcpw_r_message_type dhcpw_r_client_identifier dhcpw_r_server_identifier
+      dhcpw_r_router dhcpw_r_subnet_mask dhcpw_r_requested_ip dhcpw_r_max_size dhcpw_r_lease_duration
+      dhcpw_r_renew_duration dhcpw_r_rebind_duration dhcpw_r_parameter_request_list dhcpw_r_dns_servers
+      dhcpw_r_additional_options]. rewrite app_nil_r. cbn [app]. f_equal. rewrite <- !app_assoc. reflexivity. }
+  rewrite E. apply dhcpw_Forall_app.
+  - eapply Forall_impl; [|exact G]. intros o (Ho & _). apply dhcpw_opt_ok_len, Ho.
+  - destruct (dhcpw_wf_emit_inv r Hwf) as (_ & _ & _ & _ & _ & _ & _ & _ & _ & _ & _ & _ & _ & _ & _ & _ & _ & _ & _ & Ha).
+    apply Forall_forall. intros o Ho. rewrite forallb_forall in Ha. apply dhcpw_opt_ok_len, Ha, Ho.
+Qed.
+
+(* Repr::buffer_len is the fixed header + the options emit writes + END *)
+Lemma dhcpw_buffer_len_eq r : dhcpw_wf_emit r = true ->
+  dhcpw_buffer_len r = 240 + blen (dhcpw_opts_bytes (dhcpw_opts_of r)) + 1.
+Proof.
+  intros Hwf. destruct (dhcpw_wf_emit_inv r Hwf) as
+    (Hmt & _ & _ & _ & _ & _ & _ & _ & Hrt & Hsm & Hrip & Hcid & Hsid & Hprl & Hdns & Hms & Hld & Hrn & Hrb & _).
+  unfold dhcpw_buffer_len, dhcpw_opts_of, dhcpw_opts_len. rewrite dhcpw_opts_len_eq.
+  change (dhcpw_opts_bytes (?o :: ?l)) with (dhcpw_opt_bytes o ++ dhcpw_opts_bytes l).
+  rewrite !dhcpw_opts_bytes_app, !blen_app, dhcpw_opt_bytes_len. cbn [dhcpw_o_data].
+  rewrite (dhcpw_seg_len _ (is_arr 6) (dhcpw_r_client_identifier r) 9 Hcid)
+    by (intros v Hv; cbn [dhcpw_o_data]; unfold is_arr in Hv; bsplit; rewrite blen_cons; lia).
+  rewrite (dhcpw_seg_len _ (is_arr 4) (dhcpw_r_server_identifier r) 6 Hsid)
+    by (intros v Hv; cbn [dhcpw_o_data]; unfold is_arr in Hv; bsplit; lia).
+  rewrite (dhcpw_seg_len _ (is_arr 4) (dhcpw_r_router r) 6 Hrt)
+    by (intros v Hv; cbn [dhcpw_o_data]; unfold is_arr in Hv; bsplit; lia).
+  rewrite (dhcpw_seg_len _ (is_arr 4) (dhcpw_r_subnet_mask r) 6 Hsm)
+    by (intros v Hv; cbn [dhcpw_o_data]; unfold is_arr in Hv; bsplit; lia).
+  rewrite (dhcpw_seg_len _ (is_arr 4) (dhcpw_r_requested_ip r) 6 Hrip)
+    by (intros v Hv; cbn [dhcpw_o_data]; unfold is_arr in Hv; bsplit; lia).
+  rewrite (dhcpw_seg_len _ is_u16 (dhcpw_r_max_size r) 4 Hms) by (intros v Hv; reflexivity).
+  rewrite (dhcpw_seg_len _ is_u32 (dhcpw_r_lease_duration r) 6 Hld) by (intros v Hv; reflexivity).
+  rewrite (dhcpw_seg_len _ is_u32 (dhcpw_r_renew_duration r) 6 Hrn) by (intros v Hv; reflexivity).
+  rewrite (dhcpw_seg_len _ is_u32 (dhcpw_r_rebind_duration r) 6 Hrb) by (intros v Hv; reflexivity).
+  assert (Eprl : blen (dhcpw_opts_bytes (dhcpw_seg (mkDhcpwOpt wdhcp_OPT_PARAMETER_REQUEST_LIST)
+                         (dhcpw_r_parameter_request_list r))) =
+                 match dhcpw_r_parameter_request_list r with Some l => blen l + 2 | None => 0 end).
+  { destruct (dhcpw_r_parameter_request_list r); [|reflexivity].
+    cbn [dhcpw_seg dhcpw_opts_bytes flat_map]. rewrite app_nil_r, dhcpw_opt_bytes_len. cbn [dhcpw_o_data]. lia. }
+  assert (Edns : blen (dhcpw_opts_bytes (dhcpw_seg (fun ips => mkDhcpwOpt wdhcp_OPT_DOMAIN_NAME_SERVER (concat ips))
+                         (dhcpw_r_dns_servers r))) =
+                 match dhcpw_r_dns_servers r with Some s => 2 + Z.of_nat (length s) * 4 | None => 0 end).
+  { destruct (dhcpw_r_dns_servers r) as [ips|]; [|reflexivity]. cbn [dhcpw_opt_all] in Hdns.
+    unfold dhcpw_dns_ok in Hdns. apply andb_prop in Hdns. destruct Hdns as [_ Hf].
+    cbn [dhcpw_seg dhcpw_opts_bytes flat_map]. rewrite app_nil_r, dhcpw_opt_bytes_len. cbn [dhcpw_o_data].
+    rewrite dhcpw_concat4_len by assumption. reflexivity. }
+  rewrite Eprl, Edns. replace (blen [dhcpw_r_message_type r]) with 1 by reflexivity. zfold. lia.
+Qed.
+
+(* the option block on an options area of exactly the declared size *)
+Lemma dhcpw_emit_options_spec r s : dhcpw_wf_emit r = true ->
+  blen s = blen (dhcpw_opts_bytes (dhcpw_opts_of r)) + 1 ->
+  dhcpw_emit_options r s = Ok (dhcpw_opts_bytes (dhcpw_opts_of r) ++ [wdhcp_OPT_END]).
+Proof.
+  intros Hwf Hs. pose proof (dhcpw_opts_of_short r Hwf) as Hsh.
+  destruct (dhcpw_wf_emit_inv r Hwf) as
+    (_ & _ & _ & _ & _ & _ & _ & _ & _ & _ & _ & _ & _ & _ & Hdns & _).
+  rewrite dhcpw_emit_options_eq by assumption.
+  pose proof (blen_nonneg (dhcpw_opts_bytes (dhcpw_opts_of r))) as Hn.
+  rewrite dhcpw_ow_emit_all_ok by (try assumption; lia). cbn [obind app].
+  set (n := blen (dhcpw_opts_bytes (dhcpw_opts_of r))) in *.
+  assert (L : length (skipn (Z.to_nat n) s) = 1%nat) by (rewrite skipn_length; unfold blen in Hs; lia).
+  destruct (skipn (Z.to_nat n) s) as [|c [|? ?]]; cbn [length] in L; try lia.
+  rewrite dhcpw_ow_end_ok. cbn [obind fst snd]. rewrite app_nil_r. reflexivity.
+Qed.
+
+(* ====================================================================================== *)
+(* C06: the fixed header                                                                  *)
+(* ====================================================================================== *)
+
+(* the 240 octets of the fixed header: op, htype, hlen, hops, xid, secs, flags, ciaddr, yiaddr,
+   siaddr, giaddr, chaddr (6 octets), 202 zero octets (chaddr padding, sname, file), magic cookie *)
+Definition dhcpw_hdr (r : dhcpw_repr) : list Z :=
+  [dhcpw_mt_opcode (dhcpw_r_message_type r); dhcpw_HW_ETHERNET; 6; 0] ++
+  be_enc4 (dhcpw_r_transaction_id r) ++ be_enc2 (dhcpw_r_secs r) ++
+  be_enc2 (if dhcpw_r_broadcast r then dhcpw_FLAG_BROADCAST else 0) ++
+  dhcpw_r_client_ip r ++ dhcpw_r_your_ip r ++ dhcpw_r_server_ip r ++ dhcpw_r_relay_agent_ip r ++
+  dhcpw_r_client_hardware_address r ++ repeat 0 202 ++ be_enc4 wdhcp_DHCP_MAGIC_NUMBER.
+
+Definition dhcpw_bytes (r : dhcpw_repr) : list Z :=
+  dhcpw_hdr r ++ dhcpw_opts_bytes (dhcpw_opts_of r) ++ [wdhcp_OPT_END].
+
+Ltac dhcpw_unfold_setters :=
+  unfold dhcpw_emit_fixed, dhcpw_set_sname_and_boot_file_to_zero, dhcpw_set_opcode, dhcpw_set_hardware_type,
+    dhcpw_set_hardware_len, dhcpw_set_transaction_id, dhcpw_set_client_hardware_address, dhcpw_set_hops,
+    dhcpw_set_secs, dhcpw_set_magic_number, dhcpw_set_client_ip, dhcpw_set_your_ip, dhcpw_set_server_ip,
+    dhcpw_set_relay_agent_ip, dhcpw_set_flags, wb_fill, wb_set_field, wb_put_u32, wb_put_u16.
+
+(* the setters only touch the first 240 octets *)
+Lemma dhcpw_emit_fixed_frame r h t : blen h = 240 ->
+  dhcpw_emit_fixed r (h ++ t) = omap (fun x => x ++ t) (dhcpw_emit_fixed r h).
+Proof. intros Hh. dhcpw_unfold_setters. zfold. frame. Qed.
+
+Lemma dhcpw_hdr_len r : dhcpw_wf_emit r = true -> blen (dhcpw_hdr r) = 240.
+Proof.
+  intros Hwf. destruct (dhcpw_wf_emit_inv r Hwf) as (_ & _ & _ & Hch & Hci & Hyi & Hsi & Hgi & _).
+  unfold is_arr in *. bsplit. unfold dhcpw_hdr, be_enc4, be_enc2. autorewrite with blen.
+  zfold. lia.
+Qed.
+
+(* the setters overwrite every one of the 240 octets *)
+Lemma dhcpw_emit_fixed_spec r h : dhcpw_wf_emit r = true -> blen h = 240 ->
+  dhcpw_emit_fixed r h = Ok (dhcpw_hdr r).
+Proof.
+  intros Hwf Hh. destruct (dhcpw_wf_emit_inv r Hwf) as (_ & _ & _ & Hch & Hci & Hyi & Hsi & Hgi & _).
+  unfold is_arr in *. bsplit.
+  destruct r as [mt xid secs ch ci yi si rt sm gi bc rip cid sid prl dns ms ld rn rb add].
+  cbn [dhcpw_r_message_type dhcpw_r_transaction_id dhcpw_r_secs dhcpw_r_client_hardware_address
+       dhcpw_r_client_ip dhcpw_r_your_ip dhcpw_r_server_ip dhcpw_r_relay_agent_ip dhcpw_r_broadcast] in *.
+  unfold dhcpw_hdr;
+  cbn [dhcpw_r_message_type dhcpw_r_transaction_id dhcpw_r_secs dhcpw_r_client_hardware_address
+       dhcpw_r_client_ip dhcpw_r_your_ip dhcpw_r_server_ip dhcpw_r_relay_agent_ip dhcpw_r_broadcast].
+  repeat match goal with H : blen _ = 4 |- _ => apply (blen_length _ 4) in H; cells H end.
+  match goal with H : blen _ = 6 |- _ => apply (blen_length _ 6) in H; cells H end.
+  apply (blen_length _ 240) in Hh. cells Hh.
+  unfold dhcpw_emit_fixed;
+  cbn [dhcpw_r_message_type dhcpw_r_transaction_id dhcpw_r_secs dhcpw_r_client_hardware_address
+       dhcpw_r_client_ip dhcpw_r_your_ip dhcpw_r_server_ip dhcpw_r_relay_agent_ip dhcpw_r_broadcast].
+  clear. remember (dhcpw_mt_opcode mt) as op. clear Heqop.
+  destruct bc;
+    cbv - [Z.div Z.modulo Z.land Z.lor Z.shiftl Z.shiftr Z.lxor Z.lnot be_dec]; zfold; reflexivity.
+Qed.
+
+(* ====================================================================================== *)
+(* C06: Repr::emit                                                                        *)
+(* ====================================================================================== *)
+
+Theorem dhcpw_emit_spec r b : dhcpw_wf_emit r = true -> blen b = dhcpw_buffer_len r ->
+  dhcpw_emit r b = Ok (dhcpw_bytes r).
+Proof.
+  intros Hwf Hb. rewrite dhcpw_buffer_len_eq in Hb by assumption.
+  pose proof (blen_nonneg (dhcpw_opts_bytes (dhcpw_opts_of r))) as Hn.
+  destruct (split_hdr b 240 ltac:(lia)) as (h & t & -> & Hh & Ht).
+  assert (Lh : blen h = 240) by (unfold blen; lia).
+  unfold dhcpw_emit. rewrite dhcpw_emit_fixed_frame, dhcpw_emit_fixed_spec by assumption. cbn [omap obind].
+  zfold. rewrite wb_on_from_tail by (rewrite dhcpw_hdr_len by assumption; reflexivity).
+  rewrite dhcpw_emit_options_spec by (assumption || lia). cbn [obind]. reflexivity.
+Qed.
+
+Lemma dhcpw_bytes_len r : dhcpw_wf_emit r = true -> blen (dhcpw_bytes r) = dhcpw_buffer_len r.
+Proof.
+  intros Hwf. rewrite dhcpw_buffer_len_eq by assumption. unfold dhcpw_bytes.
+  rewrite !blen_app, dhcpw_hdr_len by assumption. autorewrite with blen. lia.
+Qed.
+
+Theorem dhcpw_emit_no_panic r b : dhcpw_wf_emit r = true -> blen b = dhcpw_buffer_len r ->
+  dhcpw_emit r b <> Panic.
+Proof. intros. rewrite dhcpw_emit_spec by assumption. discriminate. Qed.
+
+Theorem dhcpw_emit_ignores_old_bytes r b1 b2 : dhcpw_wf_emit r = true ->
+  blen b1 = dhcpw_buffer_len r -> blen b2 = dhcpw_buffer_len r -> dhcpw_emit r b1 = dhcpw_emit r b2.
+Proof. intros. rewrite !dhcpw_emit_spec by assumption. reflexivity. Qed.
+
+(* ====================================================================================== *)
+(* C06: parsing what emit wrote                                                           *)
+(* ====================================================================================== *)
+
+(* the walk over emitted options (followed by END and anything) yields exactly those options *)
+Lemma dhcpw_options_go_bytes : forall l rest fuel, Forall dhcpw_opt_good l ->
+  (length (dhcpw_opts_bytes l ++ wdhcp_OPT_END :: rest) < fuel)%nat ->
+  dhcpw_options_go fuel (dhcpw_opts_bytes l ++ wdhcp_OPT_END :: rest) = Ok l.
+Proof.
+  induction l as [|o l IH]; intros rest fuel Hf Hfuel; (destruct fuel as [|fuel]; [lia|]).
+  - cbn [dhcpw_opts_bytes flat_map app dhcpw_options_go length dhcpw_opt_next].
+    rewrite Z.eqb_refl. reflexivity.
+  - inversion Hf as [|? ? (Ho & Hk0 & Hk255) Hf']; subst.
+    destruct o as [k d]. unfold dhcpw_opt_ok, is_u8 in Ho. cbn [dhcpw_o_kind dhcpw_o_data] in *. bsplit.
+    change (dhcpw_opts_bytes ({| dhcpw_o_kind := k; dhcpw_o_data := d |} :: l))
+      with (([k; blen d] ++ d) ++ dhcpw_opts_bytes l).
+    rewrite <- app_assoc.
+    set (tail := dhcpw_opts_bytes l ++ wdhcp_OPT_END :: rest) in *.
+    pose proof (blen_nonneg d) as Hd. pose proof (blen_nonneg tail) as Htl.
+    assert (Lb : blen (([k; blen d] ++ d) ++ tail) = 2 + blen d + blen tail)
+      by (autorewrite with blen; lia).
+    cbn [dhcpw_options_go].
+    remember (S (length (([k; blen d] ++ d) ++ tail))) as f1 eqn:Ef1.
+    destruct f1 as [|f1]; [discriminate|].
+    change (([k; blen d] ++ d) ++ tail) with (k :: (blen d :: d) ++ tail) at 1.
+    cbn [dhcpw_opt_next].
+    change (k :: (blen d :: d) ++ tail) with (([k; blen d] ++ d) ++ tail).
+    replace (k =? wdhcp_OPT_END) with false by (symmetry; apply Z.eqb_neq; assumption).
+    replace (k =? wdhcp_OPT_PAD) with false by (symmetry; apply Z.eqb_neq; assumption).
+    rewrite Lb. zbool.
+    rewrite wb_get_u8_app_l by (autorewrite with blen; lia).
+    rewrite wb_get_u8_app_l by (autorewrite with blen; lia).
+    rewrite wb_get_u8_ok by (autorewrite with blen; lia). zfold. cbn [nth obind]. zbool.
+    rewrite wb_sub_app_l by (autorewrite with blen; lia).
+    rewrite wb_sub_tail by (autorewrite with blen; lia).
+    rewrite wb_from_tail by (autorewrite with blen; lia). cbn [obind].
+    unfold tail. rewrite IH; [reflexivity | assumption |]. fold tail.
+    unfold tail. rewrite app_length. cbn [length].
+    change (dhcpw_opts_bytes ({| dhcpw_o_kind := k; dhcpw_o_data := d |} :: l))
+      with (k :: blen d :: d ++ dhcpw_opts_bytes l) in Hfuel.
+    rewrite app_length in Hfuel. cbn [length] in Hfuel. rewrite app_length in Hfuel. lia.
+Qed.
+
+Lemma dhcpw_parse_opts_app bs : forall l1 l2 a,
+  dhcpw_parse_opts bs a (l1 ++ l2) = do a' <- dhcpw_parse_opts bs a l1; dhcpw_parse_opts bs a' l2.
+Proof.
+  induction l1 as [|o l1 IH]; intros l2 a; cbn [app dhcpw_parse_opts obind]; [reflexivity|].
+  destruct (dhcpw_parse_opt bs a o); cbn [obind]; [apply IH | reflexivity | reflexivity].
+Qed.
+
+(* option kinds the parser interprets *)
+Definition dhcpw_kind_known (k : Z) : bool :=
+  existsb (Z.eqb k)
+    [wdhcp_OPT_DHCP_MESSAGE_TYPE; wdhcp_OPT_REQUESTED_IP; wdhcp_OPT_CLIENT_ID; wdhcp_OPT_SERVER_IDENTIFIER;
+     wdhcp_OPT_ROUTER; wdhcp_OPT_SUBNET_MASK; wdhcp_OPT_MAX_DHCP_MESSAGE_SIZE; wdhcp_OPT_RENEWAL_TIME_VALUE;
+     wdhcp_OPT_REBINDING_TIME_VALUE; wdhcp_OPT_IP_LEASE_TIME; wdhcp_OPT_PARAMETER_REQUEST_LIST;
+     wdhcp_OPT_DOMAIN_NAME_SERVER].
+
+Lemma dhcpw_parse_opt_unknown bs a o : dhcpw_kind_known (dhcpw_o_kind o) = false ->
+  dhcpw_parse_opt bs a o = Ok a.
+Proof.
+  unfold dhcpw_kind_known. cbn [existsb]. intros H.
+  repeat (apply orb_false_elim in H; destruct H as [?E H]).
+  destruct a. unfold dhcpw_parse_opt. rewrite E, E0, E1, E2, E3, E4, E5, E6, E7, E8, E9, E10.
+  reflexivity.
+Qed.
+
+Lemma dhcpw_parse_opts_unknown bs a l : forallb (fun o => negb (dhcpw_kind_known (dhcpw_o_kind o))) l = true ->
+  dhcpw_parse_opts bs a l = Ok a.
+Proof.
+  induction l as [|o l IH]; cbn [forallb dhcpw_parse_opts]; intros H; [reflexivity|].
+  apply andb_prop in H. destruct H as [Ho Hl]. apply negb_true_iff in Ho.
+  rewrite dhcpw_parse_opt_unknown by assumption. cbn [obind]. apply IH, Hl.
+Qed.
+
+Lemma dhcpw_chunks4_concat ips : forallb (is_arr 4) ips = true -> dhcpw_chunks4 (concat ips) = ips.
+Proof.
+  induction ips as [|a t IH]; cbn [forallb concat]; intros H; [reflexivity|].
+  apply andb_prop in H. destruct H as [Ha Ht]. unfold is_arr in Ha. bsplit.
+  match goal with H : blen a = 4 |- _ => apply (blen_length _ 4) in H; cells H end.
+  cbn [app dhcpw_chunks4]. rewrite IH by assumption. reflexivity.
+Qed.
+
+(* ---------- the option loop over one emitted option (or none): it sets exactly its variable ---------- *)
+Ltac dhcpw_eval :=
+  cbv - [Z.div Z.modulo Z.land Z.lor Z.shiftl Z.shiftr Z.lxor Z.lnot be_dec].
+
+Section DhcpwFold.
+Variable bs : list Z.
+Variables (mt : option Z) (rip cid sid rt sm prl : option (list Z)) (dns : option (list (list Z)))
+          (ms ld rn rb : option Z).
+
+Lemma dhcpw_pseg_mt v : is_u8 v = true -> dhcpw_opcode bs = Ok (dhcpw_mt_opcode v) ->
+  dhcpw_parse_opt bs (mkDhcpwAcc None rip cid sid rt sm prl dns ms ld rn rb)
+    (mkDhcpwOpt wdhcp_OPT_DHCP_MESSAGE_TYPE [v]) =
+  Ok (mkDhcpwAcc (Some v) rip cid sid rt sm prl dns ms ld rn rb).
+Proof.
+  intros Hv Hop. unfold dhcpw_parse_opt; cbn [dhcpw_o_kind dhcpw_o_data].
+  replace (blen [v]) with 1 by reflexivity. zfold. cbn [andb].
+  rewrite wb_get_u8_ok by (autorewrite with blen; lia). zfold. cbn [nth obind].
+  rewrite Hop. cbn [obind]. rewrite Z.eqb_refl. reflexivity.
+Qed.
+
+Lemma dhcpw_pseg_cid o : dhcpw_opt_all (is_arr 6) o = true ->
+  dhcpw_parse_opts bs (mkDhcpwAcc mt rip None sid rt sm prl dns ms ld rn rb)
+    (dhcpw_seg (fun v => mkDhcpwOpt wdhcp_OPT_CLIENT_ID (dhcpw_HW_ETHERNET :: v)) o) =
+  Ok (mkDhcpwAcc mt rip o sid rt sm prl dns ms ld rn rb).
+Proof.
+  destruct o as [v|]; cbn [dhcpw_opt_all dhcpw_seg dhcpw_parse_opts]; intros H; [|reflexivity].
+  unfold is_arr in H. bsplit. match goal with H : blen v = 6 |- _ => apply (blen_length _ 6) in H; cells H end.
+  dhcpw_eval. reflexivity.
+Qed.
+
+Lemma dhcpw_pseg_sid o : dhcpw_opt_all (is_arr 4) o = true ->
+  dhcpw_parse_opts bs (mkDhcpwAcc mt rip cid None rt sm prl dns ms ld rn rb)
+    (dhcpw_seg (mkDhcpwOpt wdhcp_OPT_SERVER_IDENTIFIER) o) =
+  Ok (mkDhcpwAcc mt rip cid o rt sm prl dns ms ld rn rb).
+Proof.
+  destruct o as [v|]; cbn [dhcpw_opt_all dhcpw_seg dhcpw_parse_opts]; intros H; [|reflexivity].
+  unfold is_arr in H. bsplit. match goal with H : blen v = 4 |- _ => apply (blen_length _ 4) in H; cells H end.
+  dhcpw_eval. reflexivity.
+Qed.
+
+Lemma dhcpw_pseg_rt o : dhcpw_opt_all (is_arr 4) o = true ->
+  dhcpw_parse_opts bs (mkDhcpwAcc mt rip cid sid None sm prl dns ms ld rn rb)
+    (dhcpw_seg (mkDhcpwOpt wdhcp_OPT_ROUTER) o) =
+  Ok (mkDhcpwAcc mt rip cid sid o sm prl dns ms ld rn rb).
+Proof.
+  destruct o as [v|]; cbn [dhcpw_opt_all dhcpw_seg dhcpw_parse_opts]; intros H; [|reflexivity].
+  unfold is_arr in H. bsplit. match goal with H : blen v = 4 |- _ => apply (blen_length _ 4) in H; cells H end.
+  dhcpw_eval. reflexivity.
+Qed.
+
+Lemma dhcpw_pseg_sm o : dhcpw_opt_all (is_arr 4) o = true ->
+  dhcpw_parse_opts bs (mkDhcpwAcc mt rip cid sid rt None prl dns ms ld rn rb)
+    (dhcpw_seg (mkDhcpwOpt wdhcp_OPT_SUBNET_MASK) o) =
+  Ok (mkDhcpwAcc mt rip cid sid rt o prl dns ms ld rn rb).
+Proof.
+  destruct o as [v|]; cbn [dhcpw_opt_all dhcpw_seg dhcpw_parse_opts]; intros H; [|reflexivity].
+  unfold is_arr in H. bsplit. match goal with H : blen v = 4 |- _ => apply (blen_length _ 4) in H; cells H end.
+  dhcpw_eval. reflexivity.
+Qed.
+
+Lemma dhcpw_pseg_rip o : dhcpw_opt_all (is_arr 4) o = true ->
+  dhcpw_parse_opts bs (mkDhcpwAcc mt None cid sid rt sm prl dns ms ld rn rb)
+    (dhcpw_seg (mkDhcpwOpt wdhcp_OPT_REQUESTED_IP) o) =
+  Ok (mkDhcpwAcc mt o cid sid rt sm prl dns ms ld rn rb).
+Proof.
+  destruct o as [v|]; cbn [dhcpw_opt_all dhcpw_seg dhcpw_parse_opts]; intros H; [|reflexivity].
+  unfold is_arr in H. bsplit. match goal with H : blen v = 4 |- _ => apply (blen_length _ 4) in H; cells H end.
+  dhcpw_eval. reflexivity.
+Qed.
+
+Lemma dhcpw_pseg_ms o : dhcpw_opt_all is_u16 o = true ->
+  dhcpw_parse_opts bs (mkDhcpwAcc mt rip cid sid rt sm prl dns None ld rn rb)
+    (dhcpw_seg (fun v => mkDhcpwOpt wdhcp_OPT_MAX_DHCP_MESSAGE_SIZE (be_enc2 v)) o) =
+  Ok (mkDhcpwAcc mt rip cid sid rt sm prl dns o ld rn rb).
+Proof.
+  destruct o as [v|]; cbn [dhcpw_opt_all dhcpw_seg dhcpw_parse_opts]; intros H; [|reflexivity].
+  bsplit. dhcpw_eval. rewrite be_dec_cells2 by lia. reflexivity.
+Qed.
+
+Lemma dhcpw_pseg_ld o : dhcpw_opt_all is_u32 o = true ->
+  dhcpw_parse_opts bs (mkDhcpwAcc mt rip cid sid rt sm prl dns ms None rn rb)
+    (dhcpw_seg (fun v => mkDhcpwOpt wdhcp_OPT_IP_LEASE_TIME (be_enc4 v)) o) =
+  Ok (mkDhcpwAcc mt rip cid sid rt sm prl dns ms o rn rb).
+Proof.
+  destruct o as [v|]; cbn [dhcpw_opt_all dhcpw_seg dhcpw_parse_opts]; intros H; [|reflexivity].
+  bsplit. dhcpw_eval. rewrite be_dec_cells4 by lia. reflexivity.
+Qed.
+
+Lemma dhcpw_pseg_rn o : dhcpw_opt_all is_u32 o = true ->
+  dhcpw_parse_opts bs (mkDhcpwAcc mt rip cid sid rt sm prl dns ms ld None rb)
+    (dhcpw_seg (fun v => mkDhcpwOpt wdhcp_OPT_RENEWAL_TIME_VALUE (be_enc4 v)) o) =
+  Ok (mkDhcpwAcc mt rip cid sid rt sm prl dns ms ld o rb).
+Proof.
+  destruct o as [v|]; cbn [dhcpw_opt_all dhcpw_seg dhcpw_parse_opts]; intros H; [|reflexivity].
+  bsplit. dhcpw_eval. rewrite be_dec_cells4 by lia. reflexivity.
+Qed.
+
+Lemma dhcpw_pseg_rb o : dhcpw_opt_all is_u32 o = true ->
+  dhcpw_parse_opts bs (mkDhcpwAcc mt rip cid sid rt sm prl dns ms ld rn None)
+    (dhcpw_seg (fun v => mkDhcpwOpt wdhcp_OPT_REBINDING_TIME_VALUE (be_enc4 v)) o) =
+  Ok (mkDhcpwAcc mt rip cid sid rt sm prl dns ms ld rn o).
+Proof.
+  destruct o as [v|]; cbn [dhcpw_opt_all dhcpw_seg dhcpw_parse_opts]; intros H; [|reflexivity].
+  bsplit. dhcpw_eval. rewrite be_dec_cells4 by lia. reflexivity.
+Qed.
+
+Lemma dhcpw_pseg_prl o :
+  dhcpw_parse_opts bs (mkDhcpwAcc mt rip cid sid rt sm None dns ms ld rn rb)
+    (dhcpw_seg (mkDhcpwOpt wdhcp_OPT_PARAMETER_REQUEST_LIST) o) =
+  Ok (mkDhcpwAcc mt rip cid sid rt sm o dns ms ld rn rb).
+Proof.
+  destruct o as [v|]; cbn [dhcpw_seg dhcpw_parse_opts]; [|reflexivity].
+  unfold dhcpw_parse_opt; cbn [dhcpw_o_kind dhcpw_o_data]. zfold. cbn [andb obind]. reflexivity.
+Qed.
+
+Lemma dhcpw_pseg_dns o : dhcpw_opt_all dhcpw_dns_ok o = true ->
+  dhcpw_parse_opts bs (mkDhcpwAcc mt rip cid sid rt sm prl None ms ld rn rb)
+    (dhcpw_seg (fun ips => mkDhcpwOpt wdhcp_OPT_DOMAIN_NAME_SERVER (concat ips)) o) =
+  Ok (mkDhcpwAcc mt rip cid sid rt sm prl o ms ld rn rb).
+Proof.
+  destruct o as [ips|]; cbn [dhcpw_opt_all dhcpw_seg dhcpw_parse_opts]; intros H; [|reflexivity].
+  unfold dhcpw_dns_ok in H. zfold_in H. apply andb_prop in H. destruct H as [Hn Hf]. bsplit.
+  unfold dhcpw_parse_opt; cbn [dhcpw_o_kind dhcpw_o_data]. zfold. cbn [andb obind].
+  unfold dhcpw_dns_parse. zfold. rewrite dhcpw_chunks4_concat by assumption.
+  rewrite firstn_all2 by lia. reflexivity.
+Qed.
+End DhcpwFold.
+
+(* the whole loop over the emitted options *)
+Lemma dhcpw_parse_opts_of bs r : dhcpw_wf_emit r = true ->
+  dhcpw_opcode bs = Ok (dhcpw_mt_opcode (dhcpw_r_message_type r)) ->
+  forallb (fun o => negb (dhcpw_kind_known (dhcpw_o_kind o))) (dhcpw_r_additional_options r) = true ->
+  dhcpw_parse_opts bs dhcpw_acc0 (dhcpw_opts_of r) =
+  Ok (mkDhcpwAcc (Some (dhcpw_r_message_type r)) (dhcpw_r_requested_ip r) (dhcpw_r_client_identifier r)
+        (dhcpw_r_server_identifier r) (dhcpw_r_router r) (dhcpw_r_subnet_mask r)
+        (dhcpw_r_parameter_request_list r) (dhcpw_r_dns_servers r) (dhcpw_r_max_size r)
+        (dhcpw_r_lease_duration r) (dhcpw_r_renew_duration r) (dhcpw_r_rebind_duration r)).
+Proof.
+  intros Hwf Hop Hadd. destruct (dhcpw_wf_emit_inv r Hwf) as
+    (Hmt & _ & _ & _ & _ & _ & _ & _ & Hrt & Hsm & Hrip & Hcid & Hsid & Hprl & Hdns & Hms & Hld & Hrn & Hrb & _).
+  unfold dhcpw_opts_of, dhcpw_acc0. cbn [dhcpw_parse_opts].
+  rewrite dhcpw_pseg_mt by assumption. cbn [obind].
+  rewrite dhcpw_parse_opts_app, dhcpw_pseg_cid by assumption. cbn [obind].
+  rewrite dhcpw_parse_opts_app, dhcpw_pseg_sid by assumption. cbn [obind].
+  rewrite dhcpw_parse_opts_app, dhcpw_pseg_rt by assumption. cbn [obind].
+  rewrite dhcpw_parse_opts_app, dhcpw_pseg_sm by assumption. cbn [obind].
+  rewrite dhcpw_parse_opts_app, dhcpw_pseg_rip by assumption. cbn [obind].
+  rewrite dhcpw_parse_opts_app, dhcpw_pseg_ms by assumption. cbn [obind].
+  rewrite dhcpw_parse_opts_app, dhcpw_pseg_ld by assumption. cbn [obind].
+  rewrite dhcpw_parse_opts_app, dhcpw_pseg_rn by assumption. cbn [obind].
+  rewrite dhcpw_parse_opts_app, dhcpw_pseg_rb by assumption. cbn [obind].
+  rewrite dhcpw_parse_opts_app, dhcpw_pseg_prl. cbn [obind].
+  rewrite dhcpw_parse_opts_app, dhcpw_pseg_dns by assumption. cbn [obind].
+  apply dhcpw_parse_opts_unknown, Hadd.
+Qed.
+
+(* ---------- the fixed header read back ---------- *)
+
+(* the fixed-header accessors (and check_len, options) only look at / start after the first 240 octets *)
+Lemma dhcpw_fixed_app_l h t : blen h = 240 ->
+  dhcpw_check_len (h ++ t) = Ok tt /\
+  dhcpw_opcode (h ++ t) = dhcpw_opcode h /\
+  dhcpw_hardware_type (h ++ t) = dhcpw_hardware_type h /\
+  dhcpw_hardware_len (h ++ t) = dhcpw_hardware_len h /\
+  dhcpw_transaction_id (h ++ t) = dhcpw_transaction_id h /\
+  dhcpw_secs (h ++ t) = dhcpw_secs h /\
+  dhcpw_magic_number (h ++ t) = dhcpw_magic_number h /\
+  dhcpw_flags (h ++ t) = dhcpw_flags h /\
+  dhcpw_client_hardware_address (h ++ t) = dhcpw_client_hardware_address h /\
+  dhcpw_client_ip (h ++ t) = dhcpw_client_ip h /\
+  dhcpw_your_ip (h ++ t) = dhcpw_your_ip h /\
+  dhcpw_server_ip (h ++ t) = dhcpw_server_ip h /\
+  dhcpw_relay_agent_ip (h ++ t) = dhcpw_relay_agent_ip h /\
+  dhcpw_options (h ++ t) = dhcpw_options_go (S (length t)) t.
+Proof.
+  intros Hh. pose proof (blen_nonneg t).
+  unfold dhcpw_opcode, dhcpw_hardware_type, dhcpw_hardware_len, dhcpw_transaction_id, dhcpw_secs,
+    dhcpw_magic_number, dhcpw_flags, dhcpw_client_hardware_address, dhcpw_client_ip, dhcpw_your_ip,
+    dhcpw_server_ip, dhcpw_relay_agent_ip, dhcpw_options, wb_get_u32, wb_get_u16, wb_field.
+  zfold.
+  rewrite !wb_get_u8_app_l, !wb_get_be_app_l, !wb_sub_app_l by lia.
+  rewrite wb_from_tail by lia. cbn [obind].
+  repeat split. apply dhcpw_check_len_ok. rewrite blen_app. lia.
+Qed.
+
+Lemma dhcpw_hdr_fields r : dhcpw_wf_emit r = true ->
+  dhcpw_opcode (dhcpw_hdr r) = Ok (dhcpw_mt_opcode (dhcpw_r_message_type r)) /\
+  dhcpw_hardware_type (dhcpw_hdr r) = Ok dhcpw_HW_ETHERNET /\
+  dhcpw_hardware_len (dhcpw_hdr r) = Ok 6 /\
+  dhcpw_transaction_id (dhcpw_hdr r) = Ok (dhcpw_r_transaction_id r) /\
+  dhcpw_secs (dhcpw_hdr r) = Ok (dhcpw_r_secs r) /\
+  dhcpw_magic_number (dhcpw_hdr r) = Ok wdhcp_DHCP_MAGIC_NUMBER /\
+  dhcpw_flags (dhcpw_hdr r) = Ok (if dhcpw_r_broadcast r then dhcpw_FLAG_BROADCAST else 0) /\
+  dhcpw_client_hardware_address (dhcpw_hdr r) = Ok (dhcpw_r_client_hardware_address r) /\
+  dhcpw_client_ip (dhcpw_hdr r) = Ok (dhcpw_r_client_ip r) /\
+  dhcpw_your_ip (dhcpw_hdr r) = Ok (dhcpw_r_your_ip r) /\
+  dhcpw_server_ip (dhcpw_hdr r) = Ok (dhcpw_r_server_ip r) /\
+  dhcpw_relay_agent_ip (dhcpw_hdr r) = Ok (dhcpw_r_relay_agent_ip r).
+Proof.
+  intros Hwf. destruct (dhcpw_wf_emit_inv r Hwf) as (_ & Hxid & Hsecs & Hch & Hci & Hyi & Hsi & Hgi & _).
+  unfold is_arr in *. bsplit.
+  destruct r as [mt xid secs ch ci yi si rt sm gi bc rip cid sid prl dns ms ld rn rb add].
+  cbn [dhcpw_r_message_type dhcpw_r_transaction_id dhcpw_r_secs dhcpw_r_client_hardware_address
+       dhcpw_r_client_ip dhcpw_r_your_ip dhcpw_r_server_ip dhcpw_r_relay_agent_ip dhcpw_r_broadcast] in *.
+  unfold dhcpw_hdr;
+  cbn [dhcpw_r_message_type dhcpw_r_transaction_id dhcpw_r_secs dhcpw_r_client_hardware_address
+       dhcpw_r_client_ip dhcpw_r_your_ip dhcpw_r_server_ip dhcpw_r_relay_agent_ip dhcpw_r_broadcast].
+  repeat match goal with H : blen _ = 4 |- _ => apply (blen_length _ 4) in H; cells H end.
+  match goal with H : blen _ = 6 |- _ => apply (blen_length _ 6) in H; cells H end.
+  remember (dhcpw_mt_opcode mt) as op. clear Heqop Hwf.
+  destruct bc; repeat split; dhcpw_eval;
+    rewrite ?be_dec_cells4 by lia; rewrite ?be_dec_cells2 by lia; reflexivity.
+Qed.
+
+(* a Repr as parse returns it: no additional options *)
+Definition dhcpw_clear_additional (r : dhcpw_repr) : dhcpw_repr :=
+  mkDhcpw (dhcpw_r_message_type r) (dhcpw_r_transaction_id r) (dhcpw_r_secs r)
+    (dhcpw_r_client_hardware_address r) (dhcpw_r_client_ip r) (dhcpw_r_your_ip r) (dhcpw_r_server_ip r)
+    (dhcpw_r_router r) (dhcpw_r_subnet_mask r) (dhcpw_r_relay_agent_ip r) (dhcpw_r_broadcast r)
+    (dhcpw_r_requested_ip r) (dhcpw_r_client_identifier r) (dhcpw_r_server_identifier r)
+    (dhcpw_r_parameter_request_list r) (dhcpw_r_dns_servers r) (dhcpw_r_max_size r)
+    (dhcpw_r_lease_duration r) (dhcpw_r_renew_duration r) (dhcpw_r_rebind_duration r) [].
+
+(* additional options the parser skips and the iterator can carry: unknown kinds other than PAD/END *)
+Definition dhcpw_add_ok (o : dhcpw_opt) : bool :=
+  negb (dhcpw_kind_known (dhcpw_o_kind o)) &&
+  negb (dhcpw_o_kind o =? wdhcp_OPT_PAD) && negb (dhcpw_o_kind o =? wdhcp_OPT_END).
+
+(* parsing the emitted octets (followed by anything: the walk stops at END) *)
+Lemma dhcpw_parse_bytes r rest : dhcpw_wf_emit r = true ->
+  forallb dhcpw_add_ok (dhcpw_r_additional_options r) = true ->
+  dhcpw_parse (dhcpw_hdr r ++ dhcpw_opts_bytes (dhcpw_opts_of r) ++ wdhcp_OPT_END :: rest) =
+  Ok (dhcpw_clear_additional r).
+Proof.
+  intros Hwf Hadd.
+  assert (Hunk : forallb (fun o => negb (dhcpw_kind_known (dhcpw_o_kind o))) (dhcpw_r_additional_options r) = true).
+  { rewrite forallb_forall in *. intros o Ho. specialize (Hadd o Ho). unfold dhcpw_add_ok in Hadd.
+    bsplit. apply negb_true_iff. assumption. }
+  assert (Hgood : Forall dhcpw_opt_good (dhcpw_r_additional_options r)).
+  { destruct (dhcpw_wf_emit_inv r Hwf) as (_ & _ & _ & _ & _ & _ & _ & _ & _ & _ & _ & _ & _ & _ & _ & _ & _ & _ & _ & Ha).
+    apply Forall_forall. intros o Ho. rewrite forallb_forall in Hadd, Ha.
+    specialize (Hadd o Ho). specialize (Ha o Ho). unfold dhcpw_add_ok in Hadd. bsplit.
+    split; [assumption|]. split; assumption. }
+  pose proof (dhcpw_hdr_len r Hwf) as Lh.
+  set (t := dhcpw_opts_bytes (dhcpw_opts_of r) ++ wdhcp_OPT_END :: rest).
+  destruct (dhcpw_fixed_app_l (dhcpw_hdr r) t Lh) as
+    (Ec & Eop & Eht & Ehl & Exid & Esecs & Emag & Efl & Ech & Eci & Eyi & Esi & Egi & Eopts).
+  destruct (dhcpw_hdr_fields r Hwf) as (Fop & Fht & Fhl & Fxid & Fsecs & Fmag & Ffl & Fch & Fci & Fyi & Fsi & Fgi).
+  unfold dhcpw_parse.
+  rewrite Ec, Exid, Fxid, Ech, Fch, Eci, Fci, Eyi, Fyi, Esi, Fsi, Egi, Fgi, Esecs, Fsecs, Eht, Fht. cbn [obind].
+  rewrite Z.eqb_refl. rewrite Ehl, Fhl. cbn [obind wb_guard]. zfold. cbn [obind].
+  rewrite Emag, Fmag. cbn [obind]. zfold. cbn [wb_guard obind].
+  rewrite Eopts. unfold t. rewrite dhcpw_options_go_bytes by (try apply dhcpw_opts_of_good; auto).
+  cbn [obind]. fold t.
+  rewrite dhcpw_parse_opts_of by (try assumption; rewrite Eop; exact Fop). cbn [obind].
+  rewrite Efl, Ffl. cbn [obind dhcpw_a_message_type dhcpw_a_requested_ip dhcpw_a_client_identifier
+    dhcpw_a_server_identifier dhcpw_a_router dhcpw_a_subnet_mask dhcpw_a_parameter_request_list
+    dhcpw_a_dns_servers dhcpw_a_max_size dhcpw_a_lease_duration dhcpw_a_renew_duration dhcpw_a_rebind_duration].
+  unfold dhcpw_clear_additional. destruct (dhcpw_r_broadcast r); reflexivity.
+Qed.
+
+(* ====================================================================================== *)
+(* C06: round trip, re-parse                                                              *)
+(* ====================================================================================== *)
+
+Lemma dhcpw_wf_inv r : dhcpw_wf r = true ->
+  dhcpw_wf_emit r = true /\ dhcpw_r_additional_options r = [].
+Proof.
+  unfold dhcpw_wf. intros H. apply andb_prop in H. destruct H as [H1 H2]. split; [assumption|].
+  destruct (dhcpw_r_additional_options r); [reflexivity | discriminate].
+Qed.
+
+Lemma dhcpw_clear_additional_id r : dhcpw_r_additional_options r = [] -> dhcpw_clear_additional r = r.
+Proof. destruct r; unfold dhcpw_clear_additional; cbn. intros ->. reflexivity. Qed.
+
+(* with additional options: everything but them comes back (the parser does not keep unknown
+   options; kinds it would interpret, PAD and END are excluded) *)
+Theorem dhcpw_roundtrip_additional r b : dhcpw_wf_emit r = true ->
+  forallb dhcpw_add_ok (dhcpw_r_additional_options r) = true -> blen b = dhcpw_buffer_len r ->
+  exists bs, dhcpw_emit r b = Ok bs /\ blen bs = dhcpw_buffer_len r /\
+             dhcpw_parse bs = Ok (dhcpw_clear_additional r).
+Proof.
+  intros Hwf Hadd Hb. exists (dhcpw_bytes r). split; [apply dhcpw_emit_spec; assumption|].
+  split; [apply dhcpw_bytes_len; assumption|]. apply dhcpw_parse_bytes; assumption.
+Qed.
+
+Theorem dhcpw_roundtrip r b : dhcpw_wf r = true -> blen b = dhcpw_buffer_len r ->
+  exists bs, dhcpw_emit r b = Ok bs /\ blen bs = dhcpw_buffer_len r /\ dhcpw_parse bs = Ok r.
+Proof.
+  intros Hwf Hb. destruct (dhcpw_wf_inv r Hwf) as (Hwe & Hadd).
+  destruct (dhcpw_roundtrip_additional r b Hwe) as (bs & He & Hl & Hp); [rewrite Hadd; reflexivity | assumption |].
+  rewrite dhcpw_clear_additional_id in Hp by assumption. eauto.
+Qed.
+
+(* whatever parse accepts is inside the proviso *)
+Theorem dhcpw_parse_wf bs r : bytes_ok bs = true -> dhcpw_parse bs = Ok r -> dhcpw_wf r = true.
+Proof.
+  intros Hb H. unfold dhcpw_parse in H.
+  destruct (dhcpw_check_len bs) as [[]| |] eqn:E; cbn [obind] in H; try discriminate.
+  apply dhcpw_check_len_inv in E.
+  destruct (dhcpw_fixed_ok bs Hb E) as
+    (_ & (ht & Hht & _) & (hl & Hhl & _) & _ & (xid & Hxid & Rxid) & (secs & Hsecs & Rsecs) &
+     (mg & Hmg & _) & (fl & Hfl) & (ch & Hch & Ach) & (ci & Hci & Aci) & (yi & Hyi & Ayi) &
+     (si & Hsi & Asi) & (gi & Hgi & Agi)).
+  rewrite Hxid, Hch, Hci, Hyi, Hsi, Hgi, Hsecs, Hht in H. cbn [obind] in H.
+  destruct (ht =? dhcpw_HW_ETHERNET); [|discriminate]. rewrite Hhl in H. cbn [obind] in H.
+  destruct (hl =? 6); cbn [wb_guard obind] in H; [|discriminate].
+  rewrite Hmg in H. cbn [obind] in H.
+  destruct (mg =? wdhcp_DHCP_MAGIC_NUMBER); cbn [wb_guard obind] in H; [|discriminate].
+  destruct (dhcpw_options_ok bs Hb E) as (l & Hl & Fl). rewrite Hl in H. cbn [obind] in H.
+  destruct (dhcpw_parse_opts_spec bs ltac:(lia) l dhcpw_acc0 Fl dhcpw_acc0_wf) as (_ & Hw).
+  destruct (dhcpw_parse_opts bs dhcpw_acc0 l) as [a| |]; cbn [obind] in H; try discriminate.
+  specialize (Hw a eq_refl). rewrite Hfl in H. cbn [obind] in H.
+  destruct a as [mt rip cid sid rt sm prl dns ms ld rn rb].
+  unfold dhcpw_acc_wf in Hw.
+  cbn [dhcpw_a_message_type dhcpw_a_requested_ip dhcpw_a_client_identifier dhcpw_a_server_identifier
+       dhcpw_a_router dhcpw_a_subnet_mask dhcpw_a_parameter_request_list dhcpw_a_dns_servers
+       dhcpw_a_max_size dhcpw_a_lease_duration dhcpw_a_renew_duration dhcpw_a_rebind_duration] in *.
+  destruct Hw as (A1 & A2 & A3 & A4 & A5 & A6 & A7 & A8 & A9 & A10 & A11 & A12).
+  destruct mt as [mt|]; [|discriminate]. injection H as <-. cbn [dhcpw_opt_all] in A1.
+  assert (Uxid : is_u32 xid = true) by (unfold is_u32; zbool; reflexivity).
+  assert (Usecs : is_u16 secs = true) by (unfold is_u16; zbool; reflexivity).
+  unfold dhcpw_wf, dhcpw_wf_emit.
+  cbn [dhcpw_r_message_type dhcpw_r_transaction_id dhcpw_r_secs dhcpw_r_client_hardware_address
+       dhcpw_r_client_ip dhcpw_r_your_ip dhcpw_r_server_ip dhcpw_r_router dhcpw_r_subnet_mask
+       dhcpw_r_relay_agent_ip dhcpw_r_broadcast dhcpw_r_requested_ip dhcpw_r_client_identifier
+       dhcpw_r_server_identifier dhcpw_r_parameter_request_list dhcpw_r_dns_servers dhcpw_r_max_size
+       dhcpw_r_lease_duration dhcpw_r_renew_duration dhcpw_r_rebind_duration dhcpw_r_additional_options].
+  rewrite A1, Uxid, Usecs, Ach, Aci, Ayi, Asi, Agi, A2, A3, A4, A5, A6, A7, A8, A9, A10, A11, A12.
+  reflexivity.
+Qed.
+
+Theorem dhcpw_reparse bs r : bytes_ok bs = true -> dhcpw_parse bs = Ok r ->
+  dhcpw_wf r = true /\
+  forall b, blen b = dhcpw_buffer_len r ->
+    exists bs', dhcpw_emit r b = Ok bs' /\ dhcpw_parse bs' = Ok r.
+Proof.
+  intros Hb H. pose proof (dhcpw_parse_wf bs r Hb H) as Hwf. split; [assumption|].
+  intros b Hlen. destruct (dhcpw_roundtrip r b Hwf Hlen) as (bs' & He & _ & Hp). eauto.
+Qed.
+
+(* wf is wf_emit plus "no additional options" *)
+Lemma dhcpw_wf_wf_emit r : dhcpw_wf r = true -> dhcpw_wf_emit r = true.
+Proof. intros H. apply dhcpw_wf_inv in H. tauto. Qed.
+
+(* ====================================================================================== *)
+(* non-vacuity witnesses (concrete computations)                                          *)
+(* ====================================================================================== *)
+
+Definition dhcpw_example_repr : dhcpw_repr :=
+  mkDhcpw 5 305419896 3 [2; 0; 0; 0; 0; 1] [0; 0; 0; 0] [192; 168; 1; 100] [192; 168; 1; 1]
+    (Some [192; 168; 1; 1]) (Some [255; 255; 255; 0]) [0; 0; 0; 0] true None (Some [2; 0; 0; 0; 0; 1])
+    (Some [192; 168; 1; 1]) (Some [1; 3; 6]) (Some [[8; 8; 8; 8]; [1; 1; 1; 1]]) (Some 1500)
+    (Some 3600) (Some 1800) (Some 3150) [].
+
+Example dhcpw_example_wf : dhcpw_wf dhcpw_example_repr = true.
+Proof. vm_compute. reflexivity. Qed.
+
+Example dhcpw_example_roundtrip :
+  let r := dhcpw_example_repr in
+  match dhcpw_emit r (repeat 165 (Z.to_nat (dhcpw_buffer_len r))) with
+  | Ok bs => dhcpw_parse bs = Ok r /\ blen bs = 308
+  | _ => False
+  end.
+Proof. vm_compute. split; reflexivity. Qed.
+
+(* the iterator on malformed option areas: it stops silently *)
+Example dhcpw_walk_zero_length :        (* a zero length is fine: the walk advances by 2 *)
+  dhcpw_options_go 8 [12; 0; 12; 0; 255] = Ok [mkDhcpwOpt 12 []; mkDhcpwOpt 12 []].
+Proof. vm_compute. reflexivity. Qed.
+Example dhcpw_walk_length_past_end :    (* a length running past the buffer ends the iteration *)
+  dhcpw_options_go 8 [53; 1; 5; 12; 9; 1; 2] = Ok [mkDhcpwOpt 53 [5]].
+Proof. vm_compute. reflexivity. Qed.
+Example dhcpw_walk_missing_end_pads :   (* PAD is one octet; a missing END is not an error *)
+  dhcpw_options_go 8 [0; 0; 53; 1; 5; 0] = Ok [mkDhcpwOpt 53 [5]].
+Proof. vm_compute. reflexivity. Qed.
+Example dhcpw_walk_truncated_header :   (* a kind octet without a length octet *)
+  dhcpw_options_go 8 [53] = Ok [].
+Proof. vm_compute. reflexivity. Qed.
